@@ -40,6 +40,12 @@ def run(tier, seed):
     fam = ce.mem_family() + [x for x in ce.pair_family() if "sweep" in x[0] or x[0].startswith("expired|")]
     res = ce.run_dfs(fxv, rd, fam, "mem", maxsched=400 if tier == "quick" else 3000, preempt=2 if tier == "quick" else 3)
     collect(PROP, res, rd, ["MemBound"], viol, cst)
+    # the same programs on the design model (StoreConc.tla): every interleaving, no preemption bound; the
+    # behaviours replayed on the real store, usage sampled after every step
+    from checks.c07 import storeconc_part
+    two = [x for x in fam if len(x[1]["threads"]) == 2]
+    scinfo = storeconc_part(tier, seed, rd, fxv, viol, cst, prop=PROP, inv=["MemBound"],
+                            fam=(two if tier == "quick" else fam), nsample=12000)
     free = [("free_lim_%d" % i, ["--seed", str(rng.randrange(1 << 30)), "--threads", "4", "--ops", "25", "--keys", "3",
                                  "--rounds", "20", "--lim", str(rng.choice([400, 600, 900]))])
             for i in range(4 if tier == "quick" else 24)]
@@ -80,7 +86,7 @@ def run(tier, seed):
         "one trace = one seeded program (creates, growing/shrinking updates, deletes, expiries, sweeps, "
         "flushes, reopen) with memory_usage() and len() compared after EVERY call against the sum over "
         "present keys of (size_of::<Record>() + key length + value length); memory limits 700..9000 bytes",
-        q.sample_events(st["sample_trace"]), extra={"concurrent_schedules": cst["schedules"], "recovered_stores_checked": rec_images})
+        q.sample_events(st["sample_trace"]), extra={"concurrent_schedules": cst["schedules"], "recovered_stores_checked": rec_images, "storeconc": scinfo})
     return {"level": "model_checking", "coverage": cov, "violations": viol,
             "assumptions": ["per-record overhead read from size_of::<Record>() at run time"]}
 
